@@ -32,6 +32,23 @@ def replay_trapz(col, case):
                                                                       observed=np.asarray(got).tolist()))
                 return
     chk("rank1", case["y1"], 0, case["r1"])
+    # memory layout and views: Fortran-ordered arrays, a view with negative strides, inputs left untouched
+    try:
+        a3 = np.array(case["a3"], dtype=float)
+        want3 = np.array(case["ra3"], dtype=float) / 2.0
+        xk = x.copy()
+        for lname, arr in (("fortran-order", np.asfortranarray(a3)), ("reversed-twice-view", a3[::-1][::-1]),
+                           ("transposed-copy-view", np.ascontiguousarray(a3.transpose(2, 1, 0)).transpose(2, 1, 0))):
+            keep = arr.copy()
+            got = integrate_column(arr, xk, axis=1)
+            col.count(1)
+            if np.shape(got) != want3.shape or not np.array_equal(np.asarray(got, dtype=float), want3):
+                col.violation("integrate_column-depends-on-memory-layout", dict(rep, layout=lname, expected=want3.tolist(),
+                                                                                observed=np.asarray(got).tolist()))
+            if not np.array_equal(arr, keep) or not np.array_equal(xk, x):
+                col.violation("integrate_column-overwrites-input", dict(rep, layout=lname))
+    except Exception as ex:
+        col.violation("integrate_column-raises-" + type(ex).__name__, dict(rep, op="memory-layout", observed=repr(ex)[:200]))
     # Homogeneous: the coordinate scaled by 2^-30 (exact in binary; steps of a nanometre or so) scales the integral alike
     try:
         s = 2.0 ** -30
